@@ -44,6 +44,14 @@ MCRaces    == IF Shape = "cert" THEN {} ELSE {<<"rewrite", "CA2">>, <<"replace",
 MCMaxOps   == IF Depth = "gen" THEN 12 ELSE IF Depth = "deep" THEN (IF Shape = "cert" THEN 11 ELSE 6)
               ELSE (IF Shape = "cert" THEN 9 ELSE 5)
 
+(* generation policy (simulation picks uniformly among the successors: without it races crowd everything else out):
+   two client CA file operations out of three are followed by a settle; a race starts only at every third operation *)
+MustSettle == js.pend /\ hist # <<>> /\ hist[Len(hist)].op = "wca" /\ nops % 3 # 0
+GenNext == /\ Next
+           /\ (MustSettle /\ hist' # hist) => hist'[Len(hist')].op = "settle"
+           /\ (batch'.on /\ batch'.race /\ ~batch.on) => nops % 3 = 0
+GenSpec == Init /\ [][GenNext]_vars
+
 Finished == (nops = MaxOps /\ ~batch.on) \/ phase = "off"
 Emit == Finished => PrintT(<<"BEH", ToJson([c |-> cfg, evs |-> hist])>>)
 =============================================================================
